@@ -200,7 +200,7 @@ func (o *OracleC11) After(x *Exec, op *Op, res *Res) {
 		if pre.Vals[op.V].HasModDel && pre.Vals[op.V].Tokens.GT(post.Vals[op.V].Tokens) {
 			x.Label("c11:real-slash-with-module-stake")
 		}
-	case KNatDel, KNatUndel, KNatRedel, KDonate, KUnbTime, KMaxVals, KJail, KUnjail:
+	case KNatDel, KNatUndel, KNatRedel, KDonate, KUnbTime, KMaxVals, KJail, KUnjail, KValExit, KValCreate:
 		// native operations move real tokens between accounts and pools, never the supply
 		if !post.Supply.AmountOf(bond).Equal(pre.Supply.AmountOf(bond)) && op.K != KDonate {
 			x.Fail("C11", "net-supply", "%s changed the staking-denom supply", op.K)
